@@ -286,7 +286,7 @@ func genBytesBiased(rt *rapid.T, label string, l int, pad byte) []byte {
 		return bytes.Repeat([]byte{pad}, l)
 	}
 	bg := rapid.OneOf(
-		rapid.SampledFrom([]byte{pad, pad, ' ', '0', 0, 'A', 'z', 0x80, 0xFF, 0xC3, 0xA9, 0xE9}),
+		rapid.SampledFrom([]byte{pad, pad, ' ', '0', 0, 'A', 'z', 0x80, 0xFF, 0xC3, 0xA9, 0xE9, '\t', '\n', '\r', 0x0b, 0x0c, 0x85, 0xA0, 0x7f, 0x1f}),
 		rapid.Byte(),
 	)
 	for len(out) < l {
